@@ -245,7 +245,9 @@ struct SampleScenario : Scenario {
             } else {
                 int g = r.range(0, 1); std::string h = rhex(r, g ? 96 : 48); int m = r.range(0, 5);
                 if (m <= 2) { uint8_t b[96]; memset(b, 0, 96); Bn v = m == 0 ? K().q : m == 1 ? Bn::sub(K().q, Bn(1)) : Bn::add(K().q, Bn(5)); v.to_be(b, 48); if (g) v.to_be(b + 48, 48); b[0] |= (uint8_t) (r.below(8) << 5); h = hex(b, g ? 96 : 48); }
-                p.ops.push_back({"HASHC", {g, r.chance(1, 2)}, {h}});
+                int idm = r.chance(1, 2); p.ops.push_back({"HASHC", {g, idm}, {h}});
+                // related consecutive inputs: the next hash differs from this one only in its trailing (or leading) bytes
+                if (r.chance(1, 2)) { std::string h2 = h; size_t at = r.chance(3, 4) ? h2.size() - 2 - 2 * r.below(16) : 2 * r.below(8); h2[at] = h2[at] == 'f' ? '0' : 'f'; p.ops.push_back({"HASHC", {g, idm}, {h2}}); }
             }
         }
         return p;
